@@ -46,6 +46,16 @@ protected:
     /** The function currently being parsed. */
     function_t* currentFun{nullptr};
 
+    /** Depth of the frame stack before the frame of the current function was pushed. */
+    size_t funFrameDepth{0};
+
+    /**
+     * Leaves a function whose end was never reached because the parser gave up
+     * inside its body: forgets the function and its blocks and drops the frames
+     * of its scopes. Does nothing when no function is open.
+     */
+    void abandon_function();
+
     /** Stack of nested statement blocks. */
     std::vector<std::unique_ptr<BlockStatement>> blocks;
 
